@@ -12,6 +12,7 @@ this. The predicates below say, on the bytes, where the reading applies and what
   string literals, last non-blank byte outside strings is `{`) with the raw token as the key looked for: a string opened
   right after a `{` is a first key, and when it closes its escape-decoded content is compared with `raw::TOKEN`.
 * `RawTail rest txt rest'` — `rest` is `ws : ws "…" ws }` followed by `rest'`, the string literal decoding to `txt`.
+* `rawTokenFree t` — no object of the syntax tree has a first key decoding to the raw token.
 * `valueRawTokenFree v` — no object of the `Value` has the raw token as its first key in iteration order.
 
 Import-free.
@@ -49,6 +50,32 @@ def hasRawTokenFirstKey (bs : Bytes) : Bool := rawScan {} false bs
 def RawTail (rest txt rest' : Bytes) : Prop :=
   ∃ w₁ w₂ items w₃, rest = w₁ ++ [0x3a] ++ w₂ ++ strBytes items ++ w₃ ++ [0x7d] ++ rest' ∧ Ws w₁ ∧ Ws w₂ ∧ Ws w₃ ∧
     StrWF items = true ∧ decodeItems items = some txt
+
+/-! ## on syntax trees -/
+
+/-- the key's items decode to the raw token -/
+def isRawTokenKey (k : List StrItem) : Bool := decodeItems k == some token
+
+/-- the first key of the member list decodes to the raw token -/
+def firstKeyIsRawToken : List (List StrItem × CST) → Bool
+  | (k, _) :: _ => isRawTokenKey k
+  | [] => false
+
+mutual
+/-- no object of the tree has a first key that decodes to the raw token -/
+def rawTokenFree : CST → Bool
+  | .arr xs => rawTokenFreeList xs
+  | .obj ms => !firstKeyIsRawToken ms && rawTokenFreeMembers ms
+  | _ => true
+def rawTokenFreeList : List CST → Bool
+  | [] => true
+  | x :: xs => rawTokenFree x && rawTokenFreeList xs
+def rawTokenFreeMembers : List (List StrItem × CST) → Bool
+  | [] => true
+  | (_, x) :: ms => rawTokenFree x && rawTokenFreeMembers ms
+end
+
+/-! ## on values -/
 
 mutual
 /-- no object of the `Value` has the raw token as its first key in iteration order (the order `to_string` writes: sorted in
